@@ -1,4 +1,5 @@
 """C02 - register reports each day's foods, ingredients and signed totals exactly."""
+import os
 import vlib
 from props import common
 
@@ -13,6 +14,16 @@ def run(ctx):
     if not q:
         common.replay_layer(ctx, "MC_Reporters.tla", "MC_Reporters_thorough4.cfg", "reporters-replay", "reporters4", workers=12, heap="6g", timeout=3000,
                             shape_filter=lambda sh: sh.startswith(REG_SHAPES) or sh.startswith("summary-"))
+    # the register under every template x shorten x totals mode x colour: lines and fields validated against Present.tla
+    # (a food defined by the book is expanded whatever the presentation switches say)
+    cases = os.path.join(ctx.scratch, "reporters_cases.ndjson")
+    ptr = os.path.join(ctx.scratch, "present_trace.ndjson")
+    rp = ctx.drv("present-trace", infile=cases, outfile=os.path.join(ctx.scratch, "present_trace_mm.ndjson"), tracefile=ptr, args={"stride": 60 if q else 6})
+    vlib.validate_traces(ctx, "Trace_Present.tla", "Trace_Present.cfg", ptr, "present-trace-rejected", "cmd/hranoprovod-cli/internal/register", timeout=2400, heap="4g")
+    ctx.add("evaluations", rp["runs"])
+    # across processes (the real binary): whole log in one process = blocks in separate processes; default = interleaving
+    rb = ctx.drv("compose-binary", outfile=os.path.join(ctx.scratch, "compose_bin_mm.ndjson"), env_extra={"VERIF_BIN": ctx.build_binary()})
+    ctx.add("evaluations", rb["runs"])
     # random logs of up to 8 days x up to 8 entries (foods repeating within a day) over nested books: the real
     # reporters' per-day chunks validated step by step against Trace_Reporters.tla
     common.trace_layer(ctx, "reporters-trace", "Trace_Reporters.tla", "Trace_Reporters.cfg", "reporters", "reporters-trace-rejected",
